@@ -22,7 +22,8 @@ Hypotheses, exactly.  decode / _unpack_schedule: every message, every NATURAL of
 code and are not covered), every instance, every `data` that is `None` or a string-keyed dict; the instance (`_offset`) after a
 successful call only.  The decoded `schedules` list is the rendering (`schedV`) of the model's entries; the
 `schedule_parameters` list is stated from the raw bytes (`rawParams` / `paramsOfEntry`, with `P2.unpackParam`, the model of
-`unpack_parameter` tied in TieParams): the model's `Entry` keeps the switch and the parameter VALUE only, not min / max.
+`unpack_parameter` tied in TieParams): the model's `Entry` keeps the switch and the parameter VALUE only, not min / max;
+`rawParams_model` shows that the (index, value) pairs of that list are exactly the model's switches and parameter values.
 A message with fewer than 3 bytes from the offset on: `{"schedules": []}`, offset unchanged, no `schedule_parameters` key.
 encode: `data` a string-keyed dict whose `type` is a name of the table, `switch` and `parameter` ints in 0..255 (a bool, a
 `Parameter` object or text given to `int(…)` are NOT covered: the prelude declines text / objects), `schedule` a list of days,
@@ -697,6 +698,51 @@ theorem encode_unknown_type (dk : List String) (dv : List V) (name : String) (h 
     rw [schedules_tbl]; exact seqIndexFrom_absent name Gen.schedules 0 hn
   rw [h1, bind_ok, h2]
   rfl
+
+/-! ### the parameter list against the model's entries -/
+
+/-- `(index, value)` of one element of `schedule_parameters` -/
+def pvIdxValue : V → Option (Int × Int)
+  | .tuple [.int i, .obj _ ["value", "min_value", "max_value"] [.int v, _, _]] => some (i, v)
+  | _ => none
+
+/-- what the model's entries say about the parameters: the switch under `2·index`, the value (when the triple is defined)
+under `2·index + 1` -/
+def entryIdxValues (e : Entry) : List (Int × Int) :=
+  (((e.idx * 2 : Nat) : Int), (e.switch : Int)) :: (match e.param with | some v => [(((e.idx * 2 + 1 : Nat) : Int), (v : Int))] | none => [])
+
+/-- the `(index, value)` pairs of the translated `schedule_parameters` list are exactly the model's switches and parameter
+values, entry by entry (what `EcoMAX._add_schedule_parameters` consumes; min / max are carried by `rawParams` only) -/
+theorem rawParams_model (n : Nat) (s : List UInt8) (es : List Entry) (h : decodeEntries n s = some es) :
+    (rawParams n s).filterMap pvIdxValue = es.flatMap entryIdxValues := by
+  induction n generalizing s es with
+  | zero => simp [decodeEntries] at h; subst h; rfl
+  | succ n ih =>
+    have g42 : Gen.scheduleSize = 42 := rfl
+    match s, h with
+    | idx :: sw :: pv :: pmin :: pmax :: r, h =>
+      simp only [decodeEntries, g42] at h
+      by_cases hl : r.length < 42
+      · simp [hl] at h
+      · simp only [hl, if_false] at h
+        cases hN : decodeEntries n (r.drop 42) with
+        | none => simp [hN] at h
+        | some es' =>
+          simp only [hN, Option.some.injEq] at h
+          subst h
+          have hu : undefinedByte = P2.undef := rfl
+          simp only [rawParams, List.filterMap_append, ih _ _ hN, List.flatMap_cons]
+          congr 1
+          by_cases hp : pv = undefinedByte ∧ pmin = undefinedByte ∧ pmax = undefinedByte
+          · obtain ⟨a, b, c⟩ := hp
+            subst a b c
+            simp [paramsOfEntry, P2.unpackParam, hu, pvIdxValue, tripleV, Py.mkobj, entryIdxValues]
+          · have hall : ([pv, pmin, pmax].all fun x => x == P2.undef) = false := by
+              rw [Bool.eq_false_iff]
+              intro hcon
+              simp only [List.all_cons, List.all_nil, Bool.and_true, Bool.and_eq_true, beq_iff_eq] at hcon
+              exact hp ⟨hu ▸ hcon.1, hu ▸ hcon.2.1, hu ▸ hcon.2.2⟩
+            simp [paramsOfEntry, P2.unpackParam, hall, pvIdxValue, tripleV, Py.mkobj, entryIdxValues, hp, PlumVerif.decodeLE]
 
 /-! ### non-vacuity -/
 
